@@ -19,12 +19,12 @@ CLAIMED = {
          "one task, 2 occurrences (any second of two consecutive days), 2-3 loop iterations quick (3 occurrences, 4 iterations thorough); libev/spawn stand-ins with libev 4's reschedule-then-callback order; replace/cancel histories and several tasks are C11/C12's harnesses.", "symbolic wake-up schedules against epoch-second ground truth", "6 C04"),
  'C10': ("_ical_push/_ical_pull/esccpy executed on N fully symbolic bytes (all 256 values), once as one chunk and once split at each position, with the callers' pull protocol (pull until need-more-data, the extra pull round at end of input, the last pull); every completed line handed to the component parser is recorded and must be identical; bounds/pointer checks and a canary on the line stash; unwinding assertions bound the chopping loops.",
          "N <= 4 bytes quick (5-6 thorough), two chunks, line stash reduced to 16 bytes (hook; 3 bytes for the over-long-line safety obligations); the component state machine _ical_proc is observed through hook ECHSE_VERIF_PROC, it is a function of (state, line); known finding C10-1 (escape split) excluded and re-confirmed each run.", "chunked-vs-whole differential on symbolic bytes", "6 C10"),
- 'C06': ("Write side of the checkpoint: chkpnt()/chkpnt1() with the real buffered writer (src/fdprnt.h) and the real serialiser (src/evical.c) against a file-system stand-in in which any one of the first 12 (thorough: 30) system calls fails outright or short; the invariant 'the live queue file is the old complete file or a new complete file' is asserted at rename time and the dot-file/unlink/rename protocol after the run, which covers a crash at every system-call boundary (rename atomic).",
+ 'C06': ("Write side of the checkpoint: chkpnt()/chkpnt1() with the real buffered writer (src/fdprnt.h) and the real serialiser (src/evical.c) against a file-system stand-in in which any one of the first 12 (thorough: 30) system calls fails outright or short; the invariant 'the live queue file is the old complete file or a new complete file' is asserted at rename time and the dot-file/unlink/rename protocol after the run, which covers a crash at every system-call boundary (rename atomic). The dirty-user bookkeeping (add_chkpnt/chkpnt: 16-slot list, dump-everybody fallback on overflow) is its own obligation: every user with a change note since the last checkpoint is checkpointed.",
          "queue configuration (0-2 tasks, owners, dirty user) and the length of every formatted field are constants of the obligation (7 configurations; field length 8, thorough also 40) because a symbolic length makes the writer's buffer index a 130-deep conditional chain cbmc cannot simplify; output buffer reduced to 128 bytes (hook); the reload half (a daemon started afterwards schedules exactly the checkpointed tasks) needs the text parser on the produced bytes and is outside; known finding C06-1 (write errors unnoticed) excluded by assumption and re-confirmed each run.", "single symbolic fault over the system-call trace of a checkpoint", "6 C06"),
  'C09': ("The fillers called as refill() calls them with bounds/pointer checks on the real cache buffer (cache 4 via hook): overshoot shapes, the maximal BYHOUR/BYSECOND lists, and empty recurrence sets that must end the stream within the unwinding bound (a failed unwinding assertion is replayed natively under a time limit).",
          "cache 4 instead of 64; termination obligations start near the end of the supported range; sparse-shape memory safety rides on C01's obligations.", "bounds checks + unwinding assertions as termination obligations", "6 C09"),
- 'C11': ("_inject_task1/_eject_task1/get_task with the real task table (put_task_slot/get_task_slot) and ownership predicates under symbolic histories of add-or-replace / cancel operations by two peer uids over symbolic 64-bit oids, as root daemon or per-user daemon; after every operation the look-up of every oid, the stored task, its owner and its run-as uid are compared with a reference map kept by the harness; table growth on colliding low bits is its own obligation.",
-         "2 operations x 2 oids and 3 operations x 2 oids quick (3 x 3 and table growth to 256 slots thorough); oids with fixed distinct low 4 bits and symbolic upper 60 bits in the history obligations; command layer entered with the peer uid directly; replies on the client fd, GET /queue and /sched rendering are outside.", "symbolic command histories against a reference map", "6 C11"),
+ 'C11': ("_inject_task1/_eject_task1/get_task with the real task table (put_task_slot/get_task_slot) and ownership predicates under symbolic histories of add-or-replace / cancel operations by two peer uids over symbolic 64-bit oids, as root daemon or per-user daemon; after every operation the look-up of every oid, the stored task, its owner and its run-as uid are compared with a reference map kept by the harness; table growth on colliding low bits is its own obligation; cmd_http() (GET /queue, GET /sched) with symbolic peer uid, requested uid and task owners: an ordinary user is shown his own tasks and queue file only.",
+         "2 operations x 2 oids and 3 operations x 2 oids quick (3 x 3 and table growth to 256 slots thorough); oids with fixed distinct low 4 bits and symbolic upper 60 bits in the history obligations; command layer entered with the peer uid directly; replies on the client fd, the tuid= parameter path and the rendering of the /queue and /sched bodies are outside.", "symbolic command histories against a reference map", "6 C11"),
  'C12': ("task_cb/chld_cb/run_task with symbolic limits under symbolic schedules of timer expiries and child exits; the harness keeps the ground truth of really running executions.",
          "1-2 tasks, 3-4 events quick (6 thorough), limits <= 3 or unset; libev/spawn stand-ins; child-watcher pool replaced by a separate-objects allocator.", "symbolic event schedules against a ground-truth counter", "6 C12"),
  'C13': ("prep_task() over all 32 output configurations with descriptors tagged by the object they refer to; the sinks reached by fd 1 / fd 2 through the plan are compared with the README table; working directory and stdin likewise. The data pump data_cb() is executed against a kernel stand-in (mail file as a log of appended segments; splice amounts, sendfile partial transfers and the order of the two watchers symbolic): each tee file receives exactly its own stream's bytes, in order.",
